@@ -378,6 +378,14 @@ func (t *ncTarget) setCandidate(source TargetSource) (*sdcpb.SetDataResponse, er
 		if strings.Contains(err.Error(), "EOF") {
 			t.Close()
 			go t.reconnect()
+			return nil, err
+		}
+		// the changes that could not be committed must not remain in the candidate,
+		// the next transaction would commit them.
+		err2 := t.driver.Discard()
+		if err2 != nil {
+			// log failed discard
+			log.Errorf("failed with %v while discarding pending changes after error %v", err2, err)
 		}
 		return nil, err
 	}
